@@ -467,4 +467,58 @@ theorem parse_refines (N G : Nat) (toks : List Tok) (nodes0 : List ASTNode) (hnb
           simp [enc, assert_and_cunsume_st]
         | _ => simp [enc]
 
+/-- the walk on the heap `_parse` has built: `from_ast` as translated returns exactly the model's rows -/
+theorem built_root (nodes0 nodes' : List ASTNode) (rows : List Asc.Row)
+    (h : Built encF U (nodes0 ++ [rootRec]) nodes' nodes0.length nodes0.length (-1) (-1) 0 rows) (F : Nat) (hF : 2 * nodes'.length ≤ F) :
+    from_ast F nodes' (nodes0.length : Int) = some ((rows.length : Int), colsOf (encRows encF 0 rows)) := by
+  obtain ⟨js, ks, hS, aj, ak, bj, bk, hr, hc⟩ := h
+  obtain ⟨o, g, t, v, c⟩ := new_record hS
+  simp only [if_true, rootRec, List.nil_append] at c t
+  have hA : RefineAsc.Agrees nodes' (.mk nodes0.length (js ++ ks)) := by
+    unfold RefineAsc.Agrees
+    refine ⟨o, g, by rw [c]; simp [refsL], ?_, ?_, (AgreesL_append _ _ _).2 ⟨aj, ak⟩⟩
+    · rw [t]; intro h; omega
+    · rw [t]; intro h; omega
+  have hrows : RefineAsc.rows nodes' (.mk nodes0.length (js ++ ks)) (-1) Gen.Consts.type_undefined 0 = encRows encF 0 rows := by
+    simp only [RefineAsc.rows, g, t, if_true]
+    rw [rowsL_append]
+    simpa [U] using hr
+  have hcost : cost nodes' (.mk nodes0.length (js ++ ks)) + 1 ≤ F := by
+    simp only [cost, g, t, if_true, costL_append]
+    simp only [List.length_append, List.length_singleton] at hc
+    omega
+  have := from_ast_refines nodes' (.mk nodes0.length (js ++ ks)) hA F hcost
+  rw [hrows] at this
+  simpa [AT.ref] using this
+
+/-- the parser object right after `Parser.__init__`: `next_token = None`, then `_read_token()` -/
+theorem init_st (toks : List Tok) :
+    parser_read_token { lexer := toks.map (enc encF), next_token := none, nodes := [] } = some (st encF toks [], ()) := by
+  cases toks with
+  | nil => simp [parser_read_token, parser_read_token.body, Py.seq, Py.bind, Py.finish, st]
+  | cons t rest =>
+    have h0 : ¬ ((rest.length : Int) + 1 = 0) := by omega
+    simp [parser_read_token, parser_read_token.body, Py.seq, Py.bind, Py.finish, st, Py.idx, Py.normIdx, h0]
+
+/-- **generated parser ∘ generated walk = the model**, explicit fuels: for every token list without a lexer failure, every fuel `N` of the
+model with which the model does not run out of fuel, every fuel `G ≥ 2 N` of the translated parser and every fuel `F ≥ 2·#heap` of the
+translated walk: `Parser(...)`, `_parse()`, `from_ast(ast)` as translated return the model's rows (count, ids 0…m−1, types, the four
+numbers, parents), or raise exactly when the model has an error -/
+theorem convert_refines (N G : Nat) (toks : List Tok) (hnb : NoBad toks) (hG : 2 * N ≤ G)
+    (hne : C15.convertWith N toks ≠ .error .fuel) :
+    match C15.convertWith N toks with
+    | .error _ => parser_parse G (st encF toks []) = none
+    | .ok rows => ∃ p, parser_parse G (st encF toks []) = some (p, 0) ∧
+        ∀ F, 2 * p.nodes.length ≤ F → from_ast F p.nodes 0 = some ((rows.length : Int), colsOf (encRows encF 0 rows)) := by
+  have h := parse_refines (encF := encF) N G toks [] hnb hG hne
+  revert h
+  cases C15.convertWith N toks with
+  | error e => intro h; exact h
+  | ok rows =>
+    intro h
+    obtain ⟨t', nodes', h1, h2⟩ := h
+    refine ⟨st encF t' nodes', by simpa using h1, ?_⟩
+    intro F hF
+    simpa using built_root [] nodes' rows h2 F hF
+
 end RefineAscTop
